@@ -12,6 +12,10 @@ Theorem C13_escape_roundtrip : forall s rest : str,
   lex_string (print_string s ++ rest) = LexStatic s rest.
 Proof. exact escape_roundtrip_rest. Qed.
 
+(* the fuel of the executable lexer model never runs out: LexErr EFuel is unreachable *)
+Theorem C13_lex_string_fuel_enough : forall inp : str, lex_string inp <> LexErr EFuel.
+Proof. exact lex_string_fuel_enough. Qed.
+
 Theorem C13_escape_is_single_pass : forall s : str, escape s = esc_pass s.
 Proof. exact escape_pass_eq. Qed.
 
